@@ -37,17 +37,7 @@ theorem python_types_roundtrip :
     whatever index a header-side table entry carries, the looked-up AST is what the model parser
     returns on the spelling stored next to it. -/
 theorem header_lookup_is_parse (i : Nat) (t : CTypeN) (h : lookup IntrospectHeaders.typeTable i = some t) :
-    ∃ s : Nat, IntrospectHeaders.typeTable[i]? = some (s, t) ∧ parseType (dS s) = some t.decode := by
-  unfold lookup at h
-  cases hi : IntrospectHeaders.typeTable[i]? with
-  | none => simp [hi] at h
-  | some p =>
-    obtain ⟨s, t'⟩ := p
-    simp only [hi, Option.map_some, Option.some.injEq] at h
-    subst h
-    refine ⟨s, rfl, ?_⟩
-    have hm : (s, t') ∈ IntrospectHeaders.typeTable := List.mem_of_getElem? hi
-    have := List.all_eq_true.mp header_type_strings_parse (s, t') hm
-    simpa using this
+    ∃ s : Nat, IntrospectHeaders.typeTable[i]? = some (s, t) ∧ parseType (dS s) = some t.decode :=
+  lookup_parses header_type_strings_parse i t h
 
 end MjProof.C49
